@@ -548,7 +548,9 @@ pub fn check_c19(rep: &mut Report) {
     let worlds = naming_worlds(rep.thorough());
     let mut cases = 0u64;
     let mut distinct = BTreeSet::new();
+    let mut panicked_worlds = 0u64;
     for w in &worlds {
+        let r = std::panic::catch_unwind(std::panic::AssertUnwindSafe(|| {
         // (1) the offered names: every qualified name, plus bare names of root targets
         let cfg: ir::Config = w.to_yaml_config().into();
         let offered: BTreeSet<String> = cfg.list_all_available_target_names().into_iter().collect();
@@ -629,7 +631,14 @@ pub fn check_c19(rep: &mut Report) {
                 rep.violation("qualified-name-of-unnamed-root-accepted", format!("{}\nrequest r::t was resolved although the root project has no name", w.describe()), json!({"engine": "seqcheck", "check": "C19", "world": w.describe()}));
             }
         }
+            }));
+        if r.is_err() {
+            // a panic of the resolver on one world is a verdict about the resolver, not about this checker
+            panicked_worlds += 1;
+            rep.violation("C19/resolver-panicked", format!("{}\nresolving a spelling of a target of this world panicked", w.describe()), json!({"engine": "seqcheck", "check": "C19", "world": w.describe()}));
+        }
     }
+    rep.set("worlds_on_which_the_resolver_panicked", json!(panicked_worlds));
     if let Some(w) = worlds.get(worlds.len() / 2) {
         rep.push_sample(json!({"world": w.describe(), "checked": "offered names; every spelling -> identity -> closure; bare+qualified together; refused spellings"}));
     }
